@@ -291,4 +291,21 @@ CHECKS = {
         assumptions=['the statement quantifies over code paths; this check executes the (straight-line) paths under generated environments and can only refute unpredictability',
                      'the exponent\'s seed, if clock-derived, is read within 300 us of entering MakeGAB (it is needed before the exponentiations that dominate the call)'],
     ),
+    'C09': dict(
+        pkg='./c09', test='TestC09', level='exploration', helpers={'vdriver': './cmd/vdriver'},
+        quick=dict(shards=8, checks=40, budget_s=900),
+        thorough=dict(shards=16, checks=1300, budget_s=3400),
+        level_text=('Generated histories against the reference server, real client in a fresh process per case: 1..8 goroutines issue 1..4 requests each (results: object, Bool, '
+                    'Vector<int>, Vector<long>, Vector<User>; every request carries a unique tag in an argument), the server answers each round in a drawn permutation, partitioned '
+                    'into plain messages and msg_containers, any subset gzip-packed, some as rpc_error. Each call must return exactly the value built for its own tag in the Go kind '
+                    'the generated method asserts. Schedules are sampled (GOMAXPROCS 1/2/16) and directed through named yield points; they are not enumerated.'),
+        technique='scenario-based property testing (rapid) with tagged requests against a scripted reference server; directed yield-point schedules',
+        rule=('case = rpc scenario on a resumed session: callers x tagged requests, answer order/grouping/gzip/errors, optional hold of one sender until another request arrived, GOMAXPROCS. '
+              'Non-trivial: >=2 requests answered out of order, a container, a gzip-packed result or a vector result; distinct by hash of the scenario.'),
+        must_hit=['feat:answered-out-of-order', 'feat:container', 'feat:gzip', 'feat:rpc-error', 'concurrent-callers', 'verdict:ok'] +
+                 ['feat:%s:%s' % (k, f) for k in ('object', 'bool', 'vecint', 'veclong', 'vecobj') for f in ('plain', 'container', 'gzip')],
+        assumptions=['requests are made through MakeRequest / MakeRequestWithHintToDecoder with the hint the generated method of that function passes, followed by the same type assertion',
+                     'a stall verdict needs a quiescent deadlocked state seen in two goroutine dumps; anything else after the patience is inconclusive',
+                     'schedules: the harness orders the named yield points and varies GOMAXPROCS; preemption elsewhere is left to the Go scheduler'],
+    ),
 }
